@@ -124,8 +124,12 @@ Definition nodes_init (v : tval) : mworld :=
             {| m_locals := repeat empty_store (vnat (vnth 6 v)); m_shared := empty_store; m_pers := empty_store |}.
 Definition nodes_run (v : tval) : mworld * list (option res) :=
   let keys := map vb (vl (vnth 2 v)) in
-  mexec_seq GenTables (dec_cfg (vnth 1 v)) (nodes_init v)
-            (map (fun sv => (vnat (vnth 0 sv), dec_op keys (vnth 1 sv))) (vl (vnth 4 v))).
+  mrun GenTables (dec_cfg (vnth 1 v)) (nodes_init v)
+       (map (fun sv => match vn (vnth 0 (vnth 1 sv)) with
+                       | 8%N => MDrop (vnat (vnth 0 sv)) (dec_key keys (vnth 1 (vnth 1 sv)))       (* op code 8: dropc, 9: dropall *)
+                       | 9%N => MDropAll (dec_key keys (vnth 1 (vnth 1 sv)))
+                       | _ => MOp (vnat (vnth 0 sv)) (dec_op keys (vnth 1 sv))
+                       end) (vl (vnth 4 v))).
 Definition store_obs (keys : list kbytes) (s : store) (obs : tval) : bool :=
   forallb (fun ik => ovalue_eqb (s (snd ik))
                        (match find (fun e => Nat.eqb (vnat (vnth 0 e)) (fst ik)) (vl obs) with
